@@ -1,6 +1,7 @@
 package main
 
 import (
+	"strconv"
 	"strings"
 
 	jmespath "github.com/jmespath/go-jmespath"
@@ -164,7 +165,7 @@ func c03Structural(r *mon.Run, t *mon.Tally, wl string, idx int, tree *gen.Expr)
 
 func c03(r *mon.Run) {
 	r.Rule = "structural layer (hook VerifSexpr): every operator tree with <= 3 operators (quick; thorough adds a seeded sample of 4-operator trees) over {| || && == < ! .f [0] [*] [] [?c] .* [1:] .[..] .{..} call &-in-call} and atoms {a b @ `1`} is spelled minimally, fully parenthesised, without spaces, with mixed whitespace, with redundant parentheses and with every identifier written as a quoted identifier; all six parses must be the same AST (equal parse => equal result on every document). " +
-		"semantic layer: chains whose grouping parentheses cannot pin (projection scope) are evaluated on scope-discriminating documents against ref.RefSet. Non-trivial = distinct trees whose minimal spelling has >= 2 operator kinds and no parentheses (only the table decides)."
+		"every sampled tree is also wrapped, as a whole and around its first atom, in 1…1000 redundant parentheses (Parse and Compile must give the bare AST). semantic layer: chain1 | chain2 for every chain1 of <= 3 and chain2 of <= 2 steps through all entry points (a pipe ends every projection); chains whose grouping parentheses cannot pin (projection scope) are evaluated on scope-discriminating documents against ref.RefSet. Non-trivial = distinct trees whose minimal spelling has >= 2 operator kinds and no parentheses (only the table decides)."
 	r.Exhaustive = true
 	r.Floor = 2000
 	r.Assumptions = []string{"the minimal speller implements the precedence table stated in C03 (pipe 1 < or 2 < and 3 < comparators 5 < flatten 9 < wildcard 20 < filter 21 < dot 40 < not 45 < bracket 55 < call 60, binary operators left-associative); validated at dev time on the compliance suite (every frozen tree re-parses to the original AST)",
@@ -251,6 +252,99 @@ func c03(r *mon.Run) {
 				t.Nontrivial("scope:" + expr + ref.Canon(doc))
 				t.Count("scope cases with a projection, >= 3 steps and a non-null expected result")
 			}
+		}})
+	// a pipe ends every projection, however deeply the projections are nested and whatever follows the pipe:
+	// chain1 | chain2 through all entry points (a rewrite of the finished tree in Compile shows only there)
+	S1 := S + S*S + S*S*S
+	S2 := S + S*S
+	decodeN := func(i, maxn int) []gen.Step {
+		n, block := 1, S
+		for i >= block {
+			i -= block
+			block *= S
+			n++
+		}
+		steps := make([]gen.Step, n)
+		for k := n - 1; k >= 0; k-- {
+			steps[k] = scopeSteps[i%S]
+			i /= S
+		}
+		return steps
+	}
+	pipeTree := func(i int) *gen.Expr {
+		head := i % 2
+		i /= 2
+		right := gen.Chain(nil, decodeN(i%S2, 2)...)
+		left := decodeN(i/S2, 3)
+		if head == 0 {
+			return gen.Pipe(gen.Chain(gen.Field("a"), left...), right)
+		}
+		return gen.Pipe(gen.Chain(nil, left...), right)
+	}
+	ws = append(ws, mon.Workload{Name: "pipe-ends-projections", N: S1 * S2 * 2, Batch: 4000,
+		Describe: func(i int) string { return gen.Spell(pipeTree(i)) + " on " + ref.Canon(scopeDocs[(i/2)%nd]) },
+		Do: func(i int, t *mon.Tally) {
+			tree := pipeTree(i)
+			doc := scopeDocs[(i/2+i/7)%nd]
+			expr := gen.SpellTight(tree)
+			cx := &caseCtx{r, t, "pipe-ends-projections", i}
+			res, _, _ := cx.runBoth(tree, expr, doc)
+			if nonNull(res) && gen.HasProjection(tree) {
+				t.Nontrivial("pipe:" + expr + ref.Canon(doc))
+				t.Count("pipe cases with a projection and a non-null expected result")
+			}
+		}})
+	// redundant parentheses at any depth: (((…e…))) is e, for every entry point
+	depths := []int{1, 2, 3, 8, 16, 31, 32, 33, 63, 64, 65, 100, 126, 127, 128, 129, 200, 255, 256, 257, 500, 1000}
+	if r.Tier == "thorough" {
+		depths = append(depths, 1023, 1024, 1025, 4000, 10000)
+	}
+	nbase := tierPick(r, 120, 1200)
+	ws = append(ws, mon.Workload{Name: "deep-redundant-parentheses", N: nbase * len(depths), Batch: 200,
+		Do: func(i int, t *mon.Tally) {
+			tree := small.At((i / len(depths) * 7919) % small.Len())
+			d := depths[i%len(depths)]
+			base := gen.Spell(tree)
+			want, o := parseSexpr(base)
+			t.Eval()
+			if o.Panicked || o.Err != nil {
+				return // reported by the structural workload
+			}
+			toks := gen.Tokens(tree, gen.Min)
+			inner := ""
+			// parenthesise the whole expression d times, and (second form) its first operand d times when
+			// that operand is a plain atom
+			forms := []string{strings.Repeat("(", d) + base + strings.Repeat(")", d)}
+			if len(toks) > 1 && (toks[0] == "a" || toks[0] == "b" || toks[0] == "@") && toks[1] != "(" {
+				inner = strings.Repeat("(", d) + toks[0] + strings.Repeat(")", d) + " " + strings.Join(toks[1:], " ")
+				forms = append(forms, inner)
+			}
+			for _, f := range forms {
+				sx, o := parseSexpr(f)
+				if o.Panicked || o.Err != nil || sx != want {
+					obs := sx
+					if o.Panicked || o.Err != nil {
+						obs = o.String()
+					}
+					r.Violate(&mon.Violation{Workload: "deep-redundant-parentheses", Index: i, API: "Parse", Expr: brief(f),
+						Expected: "the AST of " + base + " (" + strconv.Itoa(d) + " redundant parentheses change nothing): " + want, Observed: obs,
+						Class: "deep-redundant-parentheses: Parse"})
+					return
+				}
+				jp, co := apiCompile(f)
+				if co.Panicked || co.Err != nil {
+					r.Violate(&mon.Violation{Workload: "deep-redundant-parentheses", Index: i, API: "Compile", Expr: brief(f),
+						Expected: "compiles like " + base, Observed: co.String(), Class: "deep-redundant-parentheses: Compile"})
+					return
+				}
+				if got := jmespath.VerifSexpr(jmespath.VerifAST(jp)); got != want {
+					r.Violate(&mon.Violation{Workload: "deep-redundant-parentheses", Index: i, API: "Compile", Expr: brief(f),
+						Expected: want, Observed: got, Class: "deep-redundant-parentheses: compiled AST"})
+					return
+				}
+			}
+			t.Count("deeply parenthesised spellings with the AST of the bare expression")
+			t.Nontrivial("deep:" + strconv.Itoa(d) + ":" + base)
 		}})
 	r.Exec(ws...)
 }
